@@ -348,6 +348,16 @@ def check_components(out, A):
             for c in range(4):
                 out.equal_bits("A2A0123(hstack[A0,A2,A1,A3]):returns (A0,A1,A2,A3) bit-for-bit", np.asarray(r[c]), P[c],
                                f"plane {c}")
+    # image-side split / merge of a (H, W, 4) component array (also for H = 1 or W = 1)
+    ok, ch = out.call("split_quat_channels", L.qslst.split_quat_channels, A.copy())
+    if ok and out.true("split_quat_channels:returns four planes", isinstance(ch, (tuple, list)) and len(ch) == 4, f"{type(ch).__name__}"):
+        shapes_ok = all(np.shape(ch[c]) == (m, n) for c in range(4))
+        if out.true("split_quat_channels:every plane has the image's shape", shapes_ok, f"{[np.shape(x) for x in ch]} for {m}x{n}"):
+            for c in range(4):
+                out.equal_bits("split_quat_channels:plane c is component c bit-for-bit", np.asarray(ch[c]), P[c], f"plane {c}")
+            ok2, back = out.call("stack_quat_channels(split_quat_channels(A))", L.qslst.stack_quat_channels, *ch)
+            if ok2:
+                out.equal_bits("stack_quat_channels(split_quat_channels(A)):returns A bit-for-bit", np.asarray(back), A)
     ok, solver = out.call("QGMRESSolver()", L.solver.QGMRESSolver)
     if not ok:
         return
